@@ -1,4 +1,5 @@
 """C21 native replay: routing of incoming data on a real Channel, and the schedule behind the known finding"""
+import threading
 from paramiko.message import Message
 from .c19 import mk
 
@@ -60,11 +61,44 @@ def schedule_feed_between_empty_and_move(inp):
     def hooked(m):
         if not state["done"] and isinstance(m, bytes):
             state["done"] = True
-            c._feed_extended(data_msg(b"NEW-stderr|", 1))      # transport thread
+            # the transport thread's step, attempted at exactly this point; where the channel lock is held here the
+            # step cannot happen now and completes after set_combine_stderr has returned
+            th = threading.Thread(target=lambda: c._feed_extended(data_msg(b"NEW-stderr|", 1)), daemon=True)
+            th.start()
+            th.join(0.5)
+            state["th"] = th
         orig(m)
     c._feed = hooked
     c.set_combine_stderr(True)
     c._feed = orig
+    if state.get("th"):
+        state["th"].join(5)
     out, err = drain(c)
     ok = out == b"OLD-stderr|NEW-stderr|"
     return {"violates": not ok, "detail": [] if ok else ["stderr data reordered in the combined stream: %r" % out]}
+
+
+def schedule_switch_between_decision_and_delivery(inp):
+    """the transport thread has read combine_stderr == False and is about to feed the stderr buffer; an application
+    thread attempts set_combine_stderr(True) at exactly that point.  Afterwards nothing may be left on stderr."""
+    c, t = mk(10 ** 6, 2 ** 15)
+    pipe = c.in_stderr_buffer
+    orig = pipe.feed
+    state = {"done": False}
+
+    def hooked(data):
+        if not state["done"]:
+            state["done"] = True
+            th = threading.Thread(target=lambda: c.set_combine_stderr(True), daemon=True)
+            th.start()
+            th.join(0.5)
+            state["th"] = th
+        orig(data)
+    pipe.feed = hooked
+    c._feed_extended(data_msg(b"stderr-data|", 1))
+    pipe.feed = orig
+    if state.get("th"):
+        state["th"].join(5)
+    out, err = drain(c)
+    ok = out == b"stderr-data|" and err == b""
+    return {"violates": not ok, "detail": [] if ok else ["combining is on but stdout=%r stderr=%r" % (out, err)]}
